@@ -157,6 +157,52 @@ func Equal(a, b Value) bool {
 	return false
 }
 
+// Same: the two values are the same value (the harness comparing an observed with an expected value). Unlike the
+// language's `==` (Equal), not-a-number is the same as not-a-number.
+func Same(a, b Value) bool {
+	if a == nil || b == nil {
+		return a == nil && b == nil
+	}
+	if a.Kind() != b.Kind() {
+		return false
+	}
+	switch a := a.(type) {
+	case IntV, BoolV, StrV, NullV, RangeV:
+		return a == b
+	case FloatV:
+		x, y := float64(a), float64(b.(FloatV))
+		return x == y || (x != x && y != y)
+	case *ListV:
+		bl := b.(*ListV)
+		if len(a.Elems) != len(bl.Elems) {
+			return false
+		}
+		for i := range a.Elems {
+			if !Same(a.Elems[i], bl.Elems[i]) {
+				return false
+			}
+		}
+		return true
+	case *ObjV:
+		bo := b.(*ObjV)
+		if len(a.M) != len(bo.M) {
+			return false
+		}
+		for k, av := range a.M {
+			bv, ok := bo.M[k]
+			if !ok || !Same(av, bv) {
+				return false
+			}
+		}
+		return true
+	case OptV:
+		return Same(a.Inner, b.(OptV).Inner)
+	case *FnV:
+		return a == b.(*FnV)
+	}
+	return false
+}
+
 // DeepCopy copies heap structure (used for clones and snapshots).
 func DeepCopy(v Value) Value {
 	switch v := v.(type) {
